@@ -55,7 +55,7 @@ CHECKS = {
  'C17': {
   'level': 'model_checking',
   'explanation': 'OndriksMTBDD<unsigned> and the Apply1/2/3 and VoidApply1/2 functors executed symbolically on every diagram of the configured universe: operands are drawn as arbitrary function tables (assembled through the public API from minterm diagrams), as cubes with don\'t-care positions or as constants; the leaf operation, the removed variables, the renaming, the prefix and the offset are drawn too. Every result is read back with GetValue on all total assignments and compared entry by entry with the leaf operation applied to the operand tables (oracle on plain arrays); canonicity is checked by assembling the oracle table independently, in another order, in the same process-wide node store and requiring the identical root (operator==), and by (x == y) <=> equal tables for the diagrams at hand; GetPaths of cubes, apply results and projections must partition the assignment space with the right values; SymbolicVarAsgn (Set/Get, string form, append, concrete-symbol enumeration, ++, operator< as a strict total order) is checked on every ternary vector; operands must be unchanged; default values must be the operation applied to the default values.',
-  'bounds': {'quick': 'functions over 2 variables with 4 leaf values and over 3 variables with 2 leaf values (cubes: 3 variables, 4 values), variables numbered from 0 or from 3 (straddling a byte of SymbolicVarAsgn); every cube, every table, every default value; binary leaf operations plus mod n, max, min, xor; 4 unary and 4 ternary operations; operation trees of depth 2; every set of projected variables, every monotone renaming into twice as many variables, every prefix cube; 10..16 free bits per query; a unary apply functor object re-used after its parameter changed',
+  'bounds': {'quick': 'functions over 2 variables with 4 leaf values and over 3 variables with 2 leaf values (cubes: 3 variables, 4 values), variables numbered from 0 or from 3 (straddling a byte of SymbolicVarAsgn); every cube, every table, every default value; binary leaf operations plus mod n, max, min, xor; 4 unary and 4 ternary operations; operation trees of depth 2; every set of projected variables, every monotone renaming into twice as many variables, every prefix cube; 10..16 free bits per query; a unary apply functor object re-used after its parameter changed; fourth round: an arbitrary table over 3 variables x 2 values as one operand of the unary, binary and ternary apply (nodes reached over two paths: memo hits), a void binary functor stopped at a symbolic leaf value and used again, extensions of constant and default-valued diagrams compared with the constant diagram (canonicity)',
              'thorough': 'as quick plus both operands arbitrary tables over 2 variables/4 values for each binary operation and over 3 variables/2 values, cubes over 3 variables/4 values, 4 variables for construction, further operation / order / variable-base combinations (up to 20 free bits)'},
   'outside': 'more than 3 (construction: 4) variables, more than 4 leaf values, leaf types other than unsigned, diagrams whose variables exceed the length of the assignment passed to GetValue (precondition of the API), renamings that are not strictly monotone (precondition), ExtendWith offsets at or below a variable of the diagram (precondition); Project with a non-idempotent operation is checked against its documented node-wise meaning; DumpToDot',
   'assumptions': ['assignments passed to GetValue / GetMtbddForPrefix are at least as long as the highest variable of the diagram requires (documented precondition: shorter ones are read out of bounds)'],
